@@ -17,6 +17,7 @@ pub enum SDev {
     CommitNeg(usize),
     CommitCopy { dst: usize, src: usize },
     CommitIdentity(usize),
+    CommitAddT8(usize),
     CommitExtra,
     CommitDrop,
     CommitSwapAdj(usize),
@@ -37,6 +38,7 @@ impl SDev {
             SDev::CommitNeg(j) => format!("commitment {} negated", j),
             SDev::CommitCopy { dst, src } => format!("commitment {} <- commitment {}", dst, src),
             SDev::CommitIdentity(j) => format!("commitment {} <- identity", j),
+            SDev::CommitAddT8(j) => format!("commitment {} += T8 (point of order 8)", j),
             SDev::CommitExtra => "extra commitment appended".into(),
             SDev::CommitDrop => "last commitment dropped".into(),
             SDev::CommitSwapAdj(j) => format!("commitments {} and {} swapped", j, j + 1),
@@ -53,8 +55,14 @@ impl SDev {
 }
 
 pub fn sdevs(p: &Program, ncommit: usize, kterms: &[usize]) -> Vec<SDev> {
+    sdevs_t(p, ncommit, kterms, false)
+}
+pub fn sdevs_t(p: &Program, ncommit: usize, kterms: &[usize], torsion: bool) -> Vec<SDev> {
     let mut out = vec![];
     for j in 0..ncommit {
+        if torsion {
+            out.push(SDev::CommitAddT8(j));
+        }
         out.push(SDev::CommitAddB(j));
         out.push(SDev::CommitAddBb(j));
         out.push(SDev::CommitNeg(j));
@@ -116,7 +124,7 @@ pub fn make_base<G: Cv>(env: &Env<G>, prog: &Program, seed: u64) -> Result<BaseR
     let bytes = pr.proof?;
     let proof = R1CSProof::<G>::from_bytes(&bytes).map_err(|e| format!("{:?}", e))?;
     let rc = &pr.ctx.refcs;
-    let kterms: Vec<usize> = rc.k_index.iter().map(|ci| rc.cons[*ci].len() - 1).collect();
+    let kterms: Vec<usize> = rc.k_terms.clone();
     Ok(BaseRun { prog: prog.clone(), comms: pr.commitments, proof, honest: rc.honest.clone(), gates: rc.gates(), kterms })
 }
 
@@ -133,6 +141,7 @@ pub fn run_dev<G: Cv>(env: &Env<G>, b: &BaseRun<G>, d: &SDev, seed: u64) -> Out 
         SDev::CommitAddBb(j) => comms[*j] = (comms[*j].into_group() + env.pc.B_blinding).into_affine(),
         SDev::CommitNeg(j) => comms[*j] = (-comms[*j].into_group()).into_affine(),
         SDev::CommitIdentity(j) => comms[*j] = G::zero(),
+        SDev::CommitAddT8(j) => comms[*j] = (comms[*j].into_group() + G::torsion8().expect("torsion point")).into_affine(),
         SDev::CommitCopy { dst, src } => {
             if comms[*dst] == comms[*src] {
                 dont_care = Some("equal commitments");
@@ -202,7 +211,7 @@ pub fn main(o: &Opts) -> i32 {
     if let Some(r) = &replay {
         progs.retain(|p| Some(p.name().as_str()) == r["case"]["program"].as_str());
     }
-    rep.bounds = json!({"bases": desc, "programs": progs.len(), "deviations": "every single verifier-side deviation: each commitment += B, += B_blinding, negated, <- identity, <- every other commitment, adjacent swap, extra, dropped; each explicit constraint constant += delta (3 deltas), each coefficient += delta (2 deltas); label; each app-data op changed/removed, extra app data at every op position; B_blinding doubled; B doubled"});
+    rep.bounds = json!({"bases": desc, "programs": progs.len(), "deviations": "every single verifier-side deviation: each commitment += B, += B_blinding, += a point of order 8 (cofactor-8 curve), negated, <- identity, <- every other commitment, adjacent swap, extra, dropped; each explicit constraint constant += delta (3 deltas), each coefficient += delta (2 deltas); label; each app-data op changed/removed, extra app data at every op position; B_blinding doubled; B doubled"});
     rep.curves = CURVES.iter().map(|s| s.to_string()).collect();
     rep.rule = "for every honest (program, proof) base and every single verifier-side statement/context deviation the real verifier must reject, except the statement's own don't-cares decided by the reference model (changed constraint still satisfied by the witness, equal commitments exchanged, value base changed on a gate-free circuit); non-trivial = deviations that are not don't-cares".into();
     let start = rep.start;
@@ -221,7 +230,7 @@ pub fn main(o: &Opts) -> i32 {
                     Ok(b) => b,
                     Err(e) => return vec![(p.name(), "base".to_string(), Out::Panic(format!("base run failed: {}", e)))],
                 };
-                sdevs(p, b.comms.len(), &b.kterms).into_iter().map(|d| (p.name(), d.name(), run_dev::<G>(&env, &b, &d, o.seed))).collect()
+                sdevs_t(p, b.comms.len(), &b.kterms, G::torsion8().is_some()).into_iter().map(|d| (p.name(), d.name(), run_dev::<G>(&env, &b, &d, o.seed))).collect()
             })
         });
         for r in results {
